@@ -17,10 +17,13 @@ READY = True
 RULE = ("cases drawn from one PRNG (VERIF_SEED). A case is a scripted session against a fresh real "
         "SsrSharedContext (new / new_islands): next_id, set_is_hydrating, write_async(id, future), "
         "register_error, seal_errors, set_incomplete_chunk, pending_data, complete-future-k, poll, errors(), "
-        "get_incomplete_chunk, and real Resource / OnceResource / SharedValue creation (JsonSerdeCodec, "
-        "FromToStringCodec) under an Owner; the stream is then polled to its end, futures completing in the "
+        "get_incomplete_chunk, and real Resource / OnceResource / SharedValue creation under an Owner with a codec for each "
+        "IntoEncodedString / FromEncodedStr impl (String: JsonSerdeCodec, FromToStringCodec; Vec<u8>/[u8], i.e. base64: "
+        "FromToBytesCodec), each also checked as a pure pair (real encode -> real client-side decode); the stream is then polled to its end, futures completing in the "
         "order the case dictates. Kinds: payload (one adversarial string through write_async), error (one "
         "adversarial error message, before or after pending_data), resource (one real resource per codec), "
+        "sized (payloads whose encoded length sits on the boundaries 0..10, 3k+-1, 1023..1025, 4095..4099, 8191..8194, "
+        "12286..12290, 16384, 20000, 24577 bytes, mostly through the binary encoding), "
         "session (2-7 resources/errors/chunks, random completion order and interleaved polls, sealing), ids "
         "(nested hydrated / non-hydrated regions in islands mode). Strings come from an adversarial alphabet "
         "(< > & \" ' / = ` NUL, <!--, -->, ]]>, </script, </title, </textarea, </style, <script, backslashes, "
@@ -166,12 +169,48 @@ def gen_error(rng):
     return finish(0, script, "error")
 
 
+SIZES = (list(range(0, 11)) + [3 * k + d for k in (1, 5, 100, 341, 1000) for d in (-1, 0, 1)]
+         + [1023, 1024, 1025, 4095, 4096, 4097, 4098, 4099, 8191, 8192, 8193, 8194,
+            12286, 12287, 12288, 12289, 12290, 16384, 20000, 20001, 24577])
+
+
+def sized_text(rng, nbytes):
+    """a string whose UTF-8 encoding is exactly nbytes long (mixed 1-4 byte characters)"""
+    out = []
+    left = nbytes
+    while left > 0:
+        w = rng.choice([1, 1, 1, 2, 3, 4])
+        if w > left:
+            w = left
+        if w == 1:
+            out.append(rng.choice("abcXYZ019 <>&\"'\\/=+\n\0"))
+        elif w == 2:
+            out.append(chr(rng.randint(0x80, 0x7FF)))
+        elif w == 3:
+            out.append(chr(rng.choice([rng.randint(0x800, 0xD7FF), rng.randint(0xE000, 0xFFFF)])))
+        else:
+            out.append(chr(rng.randint(0x10000, 0x10FFFF)))
+        left -= w
+    return "".join(out)
+
+
 def gen_resource(rng):
     s = text(rng, 10)
-    script = [[12, rng.choice([0, 1, 2]), rng.choice([0, 1]), cps(s)]]
+    script = [[12, rng.choice([0, 1, 2]), rng.choice([0, 1, 2]), cps(s)]]
     if rng.random() < 0.3:
         script = [[0]] + script
     return finish(0, script, "resource")
+
+
+def gen_sized(rng, nbytes=None):
+    """every encoding at the size boundaries of its encoder (base64 groups, block sizes)"""
+    n = rng.choice(SIZES) if nbytes is None else nbytes
+    codec = rng.choice([2, 2, 2, 0, 1])
+    kind = rng.choice([0, 1, 2])
+    script = [[12, kind, codec, cps(sized_text(rng, n))]]
+    if rng.random() < 0.3:
+        script.append([12, rng.choice([0, 1, 2]), 2, cps(sized_text(rng, rng.choice(SIZES[:40])))])
+    return finish(rng.choice([0, 0, 1]) if False else 0, script, "sized")
 
 
 def gen_session(rng, ids_focus=False):
@@ -196,7 +235,7 @@ def gen_session(rng, ids_focus=False):
                 hyd = rng.random() < 0.6
                 script.append([1, int(hyd)])
         elif r < 0.35:
-            script.append([12, rng.choice([0, 1, 2]), rng.choice([0, 1]), cps(text(rng, 6))])
+            script.append([12, rng.choice([0, 1, 2]), rng.choice([0, 1, 2]), cps(text(rng, 6))])
             if script[-1][1] != 2:
                 n_gates += 1
         elif r < 0.55:
@@ -246,6 +285,11 @@ def gen_session(rng, ids_focus=False):
 def generate(rng, tier):
     n = 5000 if tier == "quick" else 100000
     batch = []
+    # every size boundary once with the binary encoding, then a random sample of sizes
+    for nb in SIZES:
+        batch.append(lambda nb=nb: finish(0, [[12, rng.choice([0, 1, 2]), 2, cps(sized_text(rng, nb))]], "sized"))
+    for i in range(60 if tier == "quick" else 600):
+        batch.append(lambda: gen_sized(rng))
     for i in range(n):
         r = rng.random()
         if r < 0.30:
@@ -346,6 +390,11 @@ def oracle(item, impl):
         elif op in (9, 10):
             take_entry()
         elif op == 12:
+            e = take_entry()
+            if e[0] != 13 or e[1] != 1:
+                problems.append("codec %d: the real client-side decoding (FromEncodedStr + Decoder) of the real "
+                                "server-side encoding (Encoder + IntoEncodedString) does not return the %d-byte value"
+                                % (cmd[2], len(s_of(cmd[3]).encode("utf-8"))))
             if not mode or hyd:
                 client_expect.append(("res", cmd[2], s_of(cmd[3])) if not stream_over() else ("late",))
     client_ids = None
@@ -384,6 +433,14 @@ def oracle(item, impl):
                     val = json.loads(got)
                 except Exception as ex:
                     return "id %d: JSON payload does not parse in the browser (%s): %r" % (cid, ex, got[:80])
+            elif exp[1] == 2:
+                val = b64_nopad_decode(got)
+                if val is None:
+                    return "id %d: the browser reads %r..., which is not unpadded standard base64 (%d chars)" % (cid, got[:40], len(got))
+                try:
+                    val = val.decode("utf-8")
+                except UnicodeDecodeError:
+                    return "id %d: base64 payload decodes to bytes that are not the value's UTF-8" % cid
             else:
                 val = got
             if val != exp[2]:
@@ -455,7 +512,7 @@ def valid_case(item):
                     return False
             if op == 7 and not (isinstance(cmd[1], int) and 0 <= cmd[1] < 1000):
                 return False
-            if op == 12 and (cmd[1] not in (0, 1, 2) or cmd[2] not in (0, 1)):
+            if op == 12 and (cmd[1] not in (0, 1, 2) or cmd[2] not in (0, 1, 2)):
                 return False
         for s in strings_of(script):
             if not isinstance(s, list):
@@ -468,6 +525,36 @@ def valid_case(item):
         return all((cls[c] == 1) == (c in escset) for c in chars)
     except Exception:
         return False
+
+
+B64 = "ABCDEFGHIJKLMNOPQRSTUVWXYZabcdefghijklmnopqrstuvwxyz0123456789+/"
+
+
+def b64_nopad_decode(s):
+    """RFC 4648 base64, standard alphabet, no padding, canonical trailing bits (what
+    base64::engine::general_purpose::STANDARD_NO_PAD accepts); None if s is not that"""
+    vals = []
+    for ch in s:
+        k = B64.find(ch)
+        if k < 0:
+            return None
+        vals.append(k)
+    if len(vals) % 4 == 1:
+        return None
+    out = bytearray()
+    for i in range(0, len(vals) - len(vals) % 4, 4):
+        a, b_, c, d = vals[i:i + 4]
+        out += bytes([(a << 2) | (b_ >> 4), ((b_ & 15) << 4) | (c >> 2), ((c & 3) << 6) | d])
+    rest = vals[len(vals) - len(vals) % 4:]
+    if len(rest) == 2:
+        if rest[1] & 15:
+            return None
+        out.append((rest[0] << 2) | (rest[1] >> 4))
+    elif len(rest) == 3:
+        if rest[2] & 3:
+            return None
+        out += bytes([(rest[0] << 2) | (rest[1] >> 4), ((rest[1] & 15) << 4) | (rest[2] >> 2)])
+    return bytes(out)
 
 
 def nontrivial(item, model):
